@@ -604,14 +604,32 @@ def c11():
     for p in ok:
         for c in p.cases:
             c["reads"] = [{"mode": "plain"}, {"mode": "trunc", "alltrunc": True}]
+    # large files (beyond any plausible read-ahead buffer: 100-300 kB), every strict prefix, summarised per file
+    hp = usable(build_programs(hist_programs()))
+    load_schemas(hp)
+    nsweep = 0
+    for p in hp + [x for x in ok if x.key == "fixed:AllTypes"]:
+        big = [(5000, "uncompressed"), (5000, "snappy")] if p.key.startswith("hist:") else [(500, "uncompressed")]
+        if not q:
+            big += [(5000, "gzip")]
+        for n, codec in big:
+            p.cases.append({"page": 1000, "codec": codec, "poff": 3, "ops": [], "bulk": {"n": n, "batches": [n - n // 3, n // 3], "trunc": True}})
+            nsweep += 1
+    ok = ok + hp
+    ck.cov["large_files_swept"] = nsweep
     run_programs(ok, "c11", timeout=2400, env_extra={"GOMEMLIMIT": "2GiB"})
     n = 0
     for p in ok:
         for e in p.events:
             if e.get("ev") == "Read" and e["mode"] == "trunc":
                 n += 1
+    for p in ok:
+        for e in p.events:
+            if e.get("ev") == "TruncSweep":
+                n += e["n"]
     ck.cov["evaluations"], ck.cov["distinct_nontrivial"] = n, n
-    ck.cov["rule"] = ("every strict prefix (every length 0..len-1) of every file (schemas of F x layouts x 3 codecs); every prefix is a distinct crash point "
+    ck.cov["rule"] = ("every strict prefix (every length 0..len-1) of every file (schemas of F x layouts x 3 codecs, plus files of 100-300 kB whose prefixes "
+                      "are judged by the driver and reported per file); every prefix is a distinct crash point "
                       "and non-trivial (the file is invalid by construction)")
     ck.cov["exhaustive"] = True
     ck.sample({"file": ok[0].key, "prefixes": "0 .. len-1"})
@@ -630,7 +648,9 @@ def c09():
     ck.cov["states"], ck.cov["transitions"] = r["distinct"], r["states"]
     model_check("MC_Layout", dict(base, SwallowSinkError="TRUE", MaxOps=4), ["FaultReported"], tag="mclayoutswallow", expect_violation="FaultReported")
     ck.cov["negative_controls"] = ["MC_Layout with SwallowSinkError: FaultReported violated as required"]
-    ok = env_files(ck, None if not q else ["AllTypes", "Document", "Person", "BoolHeavy"], 7, [LAYOUT_ONE, (2, lambda k: "a" * 3 + "w" + "a" * (k - 4) + "w" + "aw")])
+    # layouts: one page per chunk; three batches with up to two pages; a batch of four pages per chunk (the chain of page writers)
+    ok = env_files(ck, None if not q else ["AllTypes", "Document", "Person", "BoolHeavy"], 7,
+                   [LAYOUT_ONE, (2, lambda k: "a" * 3 + "w" + "a" * (k - 4) + "w" + "aw"), (1, lambda k: "a" * 4 + "w" + "aaw")])
     for p in ok:
         cases = []
         for c in p.cases:
@@ -964,6 +984,15 @@ def c07():
             lv = [1] * 13 + [(i * 7 + i // 3) % (1 << w) for i in range(8 * g)] + [0] * 9
             ops.append({"op": "dec", "w": w, "kind": "def" if g % 2 else "rep", "levels": lv, "pad": 0, "big": True,
                         "segs": [{"rle": True, "n": 13}, {"rle": False, "n": 8 * g}, {"rle": True, "n": 9}]})
+    # empty RLE runs (run length 0) at the start, in the middle and at the end of a stream
+    for w in (1, 2, 3, 4):
+        m = (1 << w) - 1
+        lv = [1, m, 0, 1, m, 0, 1, m] + [m] * 10
+        for si, segs in enumerate(([{"rle": False, "n": 8}, {"rle": True, "n": 0}, {"rle": True, "n": 10}],
+                                   [{"rle": True, "n": 0}, {"rle": False, "n": 8}, {"rle": True, "n": 0}, {"rle": True, "n": 10}],
+                                   [{"rle": False, "n": 8}, {"rle": True, "n": 10}, {"rle": True, "n": 0}],
+                                   [{"rle": True, "n": 0}, {"rle": True, "n": 0}, {"rle": False, "n": 18}])):
+            ops.append({"op": "dec", "w": w, "kind": "def" if si % 2 else "rep", "levels": lv, "segs": segs, "pad": (3 * si + 1) & m})
     for w in (1, 2, 3, 4):
         for kind in ("def", "rep"):
             ops.append({"op": "decruns", "w": w, "kind": kind, "count": 1500 if q else 20000, "seed": ck.seed * 100 + w, "nruns": 5,
